@@ -419,7 +419,11 @@ def check(prop, tier):
                 rows = run_family(prop, fam, tier, seed, work)
                 stats = props.family_stats(fam, rows)
                 cov["families"][fam] = stats
-                cov["evaluations"] += len(rows)
+                # a case line may hold many operations (each one an evaluation on both sides); families that
+                # count their non-trivial OPERATIONS report how many operations they ran, never fewer than those
+                ev = next((x for x in (stats.get("evaluations"), stats.get("operations")) if isinstance(x, int)), len(rows))
+                dn = stats.get("distinct_nontrivial", 0)
+                cov["evaluations"] += max(ev, len(rows), dn if isinstance(dn, int) else 0)
                 cov["distinct_nontrivial"] += stats.get("distinct_nontrivial", 0)
                 cov["samples"] += stats.get("samples", [])[:3]
                 cov["reevaluated_in_coq"] = cov.get("reevaluated_in_coq", 0) + coq_sample(rows, work, fam)
